@@ -5,6 +5,7 @@ from fractions import Fraction
 from nl_table import NL_TABLE
 
 OBLIGATION_MODULES = ["PyModeS.Properties.C06"]
+from props.C15 import PRECHECK, PYX_UNREADABLE  # noqa: E402  (the .pyx twin of cprNL is read through the same transliterator)
 TIE_MODULES = ["PyModeS.Tie.NLGuard"]
 MAIN_THEOREM = "PyModeS.C06.nlStair_* (staircase laws) / cprNL_eq_stair"
 RULE = ("regular latitude grid over [-90, 90] plus every double within +-256 ulp of each signed transition latitude, 0, +-87, +-90; "
@@ -58,6 +59,13 @@ KNOWN = {}
 
 
 def cases(ctx):
+    for c in _cases_all(ctx):
+        if PYX_UNREADABLE and c["real"][0] == "h:props.C15.callm" and c["real"][1][0] == "cur":
+            continue
+        yield c
+
+
+def _cases_all(ctx):
     rng = ctx.rng
 
     def one(lat, tag):
